@@ -60,6 +60,7 @@ def verify_contracts(section, contracts, theory_cls, mods, timeout_ms=20000, std
     prover = Prover(theory.axioms(), timeout_ms=timeout_ms, expander=getattr(theory, "expand", None))
     theory.prover = prover
     prover.feasible_axioms = getattr(theory, "feasible_axioms", True)
+    prover.candidate_models = getattr(theory, "candidate_models", False)
     for c in contracts:
         err = resolve(program, std_program, c)
         if err:
